@@ -348,7 +348,12 @@ type c19BConfig struct {
 	Counters int `json:"independent_counters"`
 	// Reuse: one counter processes the stream Counters times with a Reset in
 	// between (and one continuing fair source) instead of Counters fresh counters.
-	Reuse  bool    `json:"one_counter_reset_between_runs"`
+	Reuse bool `json:"one_counter_reset_between_runs"`
+	// Poll: Count is read after every Add (progress polling), not only at the end.
+	Poll bool `json:"count_polled_after_every_add"`
+	// Deep: a tiny buffer and a stream thousands of times larger, so that the
+	// probability is halved a dozen times or more ("far above the buffer size").
+	Deep   bool    `json:"deep_halving"`
 	Mean   float64 `json:"mean_count"`
 	StdDev float64 `json:"stddev_count"`
 	Tol    float64 `json:"tolerance"`
@@ -373,6 +378,17 @@ func runC19B(ch chooser.Chooser, st *Stats) *Outcome {
 	cfg.MaxRep = 1 + ch.Draw(3, "maxrep")
 	cfg.Counters = C19BCounters
 	cfg.Reuse = ch.Draw(3, "reuse") == 2
+	cfg.Poll = ch.Draw(3, "poll") == 2
+	if ch.Draw(6, "deep") == 5 {
+		cfg.Deep = true
+		cfg.Size = []int{4, 6, 8}[ch.Draw(3, "dsize")]
+		cfg.Distinct = cfg.Size << (11 + ch.Draw(3, "dshift"))
+		cfg.MaxRep = 1
+		cfg.Counters = C19BCounters / 10
+		if cfg.Counters < 1000 {
+			cfg.Counters = 1000
+		}
+	}
 	subSeed := uint64(ch.Draw(1<<20, "subseed"))
 	stream := buildStream(cfg.Distinct, cfg.MaxRep, rand.NewPCG(subSeed, 0x5eed))
 
@@ -399,8 +415,15 @@ func runC19B(ch chooser.Chooser, st *Stats) *Outcome {
 			} else {
 				c = distinct.VerifNewCounter[int](cfg.Size, rand.NewPCG(subSeed, uint64(k)+1))
 			}
-			for _, v := range stream {
-				c.Add(v)
+			if cfg.Poll {
+				for _, v := range stream {
+					c.Add(v)
+					n = c.Count()
+				}
+			} else {
+				for _, v := range stream {
+					c.Add(v)
+				}
 			}
 			n = c.Count()
 		})
@@ -426,6 +449,12 @@ func runC19B(ch chooser.Chooser, st *Stats) *Outcome {
 	st.Inc("adds", int64(out.Steps))
 	if cfg.Reuse {
 		st.Inc("probe:counter_reused_through_reset", 1)
+	}
+	if cfg.Poll {
+		st.Inc("probe:count_polled_after_every_add", 1)
+	}
+	if cfg.Deep {
+		st.Inc("probe:deep_halving_configuration", 1)
 	}
 	if math.Abs(mean-float64(cfg.Distinct)) > cfg.Tol {
 		out.Violation = &Violation{"biased-estimate", fmt.Sprintf("size %d, %d distinct values in a stream of %d: mean Count over %d independent counters is %.3f (std dev %.3f); deviation %.3f exceeds 8 standard errors = %.3f",
